@@ -125,3 +125,36 @@ func ZZH_C12_rollback_drops_flushed_block() {
 	zz.Assert("C12.flushed.key-of-the-dropped-block-gone", !ok2)
 	zz.Assert("C12.flushed.root-chain-continues-from-block-1", zz.EqBytes(l.prevJnlHash.Bytes(), root1.Bytes()))
 }
+
+// ZZH_C12_empty_value: a key holds v in block 1, is overwritten with a present but zero-length value
+// in block 2 (or deleted, or left alone) and rewritten in block 3; rolling back to block 2 reads back
+// exactly what was read when block 2 was committed - on the running ledger and on a reopened one.
+func ZZH_C12_empty_value() {
+	zz.HashForkOff()
+	store := zz.NewStore()
+	cache, _ := NewAccountCache()
+	l := zzNewLedger(store, cache)
+	a := zzAddrs[0]
+	k := []byte("k")
+	l.SetState(a, k, []byte{zz.U8("v1")}, nil)
+	zzCommit(l, 1)
+	switch zz.Choice("block2", 3) {
+	case 0:
+		l.SetState(a, k, []byte{}, nil)
+	case 1:
+		l.SetState(a, k, nil, nil)
+	case 2:
+		l.SetState(a, []byte("other"), []byte{1}, nil)
+	}
+	zzCommit(l, 2)
+	ok2, v2 := l.GetState(a, k)
+	l.SetState(a, k, []byte{zz.U8("v3")}, nil)
+	zzCommit(l, 3)
+	err := l.RollbackState(2)
+	zz.Assert("C12.empty.rollback-ok", err == nil)
+	okr, vr := l.GetState(a, k)
+	zz.Assert("C12.empty.read-as-at-block-2", okr == ok2 && zz.EqBytes(vr, v2))
+	cache2, _ := NewAccountCache()
+	okc, vc := zzNewLedger(store, cache2).GetState(a, k)
+	zz.Assert("C12.empty.reopened-read-as-at-block-2", okc == ok2 && zz.EqBytes(vc, v2))
+}
